@@ -130,7 +130,9 @@ func (r *Run) context(i int, inflight bool) string {
 // on the same directory (after the node has performed up to moveOn further chain operations of
 // the script), crashes again after ks[1] further commits, and so on. A crash point beyond the
 // commits of the run simply does not happen.
-func RunCrash(s *Script, ks []int, moveOn int, twin *Twin) (*CrashResult, error) {
+// dropLost: announcements of blocks the node connected before a restart are lost with the process
+// (the restarted wallet learns of them by catching up); otherwise the script delivers them late.
+func RunCrash(s *Script, ks []int, moveOn int, dropLost bool, twin *Twin) (*CrashResult, error) {
 	r, err := NewRun(s)
 	if err != nil {
 		return nil, err
@@ -159,6 +161,7 @@ func RunCrash(s *Script, ks []int, moveOn int, twin *Twin) (*CrashResult, error)
 		return nil, fmt.Errorf("first open: %v", err)
 	}
 	crashed := !ok
+	skip := make([]bool, len(s.Ops))
 	partialFrom := int64(-1) // stored height before the first of several interrupted restarts
 	ctxOverride := ""
 	if !ok {
@@ -167,6 +170,10 @@ func RunCrash(s *Script, ks []int, moveOn int, twin *Twin) (*CrashResult, error)
 	for {
 		if !crashed {
 			for i < len(s.Ops) {
+				if skip[i] {
+					i++
+					continue
+				}
 				out := r.Exec(i)
 				if !out.Done {
 					crashed, inflight = true, true
@@ -302,6 +309,13 @@ func RunCrash(s *Script, ks []int, moveOn int, twin *Twin) (*CrashResult, error)
 		if len(pre) > 0 {
 			r.Lines = append(r.Lines[:mark:mark], append(pre, r.Lines[mark:]...)...)
 		}
+		if dropLost {
+			for j := i; j < len(s.Ops); j++ {
+				if s.Ops[j].Kind == OpAnnounce && r.Attached[s.Ops[j].BlkID] {
+					skip[j] = true
+				}
+			}
+		}
 		// catch-up performed by Start (possibly over several attempts): the node's blocks above
 		// the stored tip, in order
 		from := syncedBefore
@@ -318,9 +332,7 @@ func RunCrash(s *Script, ks []int, moveOn int, twin *Twin) (*CrashResult, error)
 			r.emit("P %d %s", s.Gen.CfBlockID(r.N.Best[h]), v)
 			at.CaughtUp++
 		}
-		if best.Hash == *r.N.Tip().Hash() {
-			r.Stale = false
-		}
+		r.Stale = best.Hash != *r.N.Tip().Hash()
 		res.Crashes = append(res.Crashes, at)
 		if !r.guard(func() { r.Query() }) {
 			crashed, ctxOverride = true, "after-restart"
